@@ -64,6 +64,9 @@ func genOverride(rng *rand.Rand, nodeID string) string {
 
 func runC19(ctx *Ctx) {
 	n := ctx.N(1200, 30000)
+	if ctx.Want(n + 10) {
+		defer c19WS(ctx, n+10)
+	}
 	nodeID := nodeIDOf("h1")
 	sources := []string{"1.2.3.4:5555", "[::1]:5555", "[2001:db8::2]:80", "host.example:99", "", "[fe80::9%25lo0]:7"}
 	// one shared world for the public path
